@@ -82,6 +82,27 @@ async fn run_once(case: &SubCase, drop_at: Option<usize>, obs: &mut Obs) {
 			w.failures.push(("c06/more-than-cap-subscriptions".into(), format!("conn {ci}: {held} > {}", case.cap)));
 		}
 	}
+	// every subscribe call whose handler has decided got exactly one reply of the right kind (connection still open)
+	if w.failures.is_empty() && !w.stopped {
+		for (i, x) in w.insts.iter().enumerate() {
+			if !w.conns[x.conn].open {
+				continue;
+			}
+			let replies: Vec<&serde_json::Value> = w.conns[x.conn].frames.iter().filter(|f| f["id"] == json!(x.req_id)).collect();
+			let problem = match x.phase {
+				// a handler that returns without having decided has let go of the pending sink
+				Phase::Pending if x.returned.is_some() => (replies.len() != 1 || !replies[0]["error"]["code"].is_i64()).then(|| "a subscribe call whose handler returned undecided is answered by exactly one error".to_string()),
+				Phase::Pending => (!replies.is_empty()).then(|| "answered before the handler decided".to_string()),
+				Phase::Accepted => (replies.len() != 1 || replies[0].get("result") != x.sub_id.as_ref()).then(|| "an accepted subscription is answered by exactly one result carrying its id".to_string()),
+				Phase::Rejected => (replies.len() != 1 || replies[0]["error"]["code"] != json!(-32077)).then(|| "a rejected subscription is answered by exactly one error carrying the handler's code".to_string()),
+				Phase::DroppedPending => (replies.len() != 1 || !replies[0]["error"]["code"].is_i64()).then(|| "a subscribe call whose handler let go of the pending sink is answered by exactly one error".to_string()),
+				Phase::AcceptFailed => None,
+			};
+			if let Some(p) = problem {
+				w.failures.push(("c06/subscribe-call-reply".into(), format!("instance #{i} {x:?}: {p}; replies {replies:?}")));
+			}
+		}
+	}
 	// every way a subscription ended gave its slot back: finish all handlers, then `cap` new ones must start
 	if w.failures.is_empty() && !w.stopped {
 		for i in 0..w.insts.len() {
@@ -117,6 +138,9 @@ async fn run_once(case: &SubCase, drop_at: Option<usize>, obs: &mut Obs) {
 	if case.lowlevel {
 		classes.insert("low-level-ws-connect");
 	}
+	if case.per_conn_middleware != 0 {
+		classes.insert("per-connection-set_rpc/http_middleware");
+	}
 	for c in classes {
 		obs.class(c);
 	}
@@ -136,13 +160,13 @@ impl SubCheck for Bookkeeping {
 	}
 	fn strategy(&self, tier: Tier) -> BoxedStrategy<SubCase> {
 		let max = tier.pick(16usize, 30);
-		(1u8..3, 0u32..4, any::<bool>(), proptest::collection::vec(arb_step(false), 1..max), proptest::bool::weighted(0.15), 1usize..3, proptest::bool::weighted(0.25))
-			.prop_map(|(conns, cap, string_ids, mut steps, sweep_drop, pre, lowlevel)| {
+		(1u8..3, 0u32..4, any::<bool>(), proptest::collection::vec(arb_step(false), 1..max), proptest::bool::weighted(0.15), 1usize..3, proptest::bool::weighted(0.25), prop_oneof![6 => Just(0u8), 2 => Just(1u8), 1 => Just(2u8), 1 => Just(3u8)])
+			.prop_map(|(conns, cap, string_ids, mut steps, sweep_drop, pre, lowlevel, per_conn_middleware)| {
 				for _ in 0..pre {
 					steps.insert(0, H::Act { inst: 0, cmd: Cmd::Accept });
 					steps.insert(0, H::Subscribe { conn: 0, b: false, reuse: None });
 				}
-				SubCase { conns, cap, buf: 1024, string_ids, steps, sweep_drop, lowlevel }
+				SubCase { conns, cap, buf: 1024, string_ids, steps, sweep_drop, lowlevel, per_conn_middleware: if lowlevel { 0 } else { per_conn_middleware } }
 			})
 			.boxed()
 	}
